@@ -405,7 +405,7 @@ func (t *tOps) createFrom(src iterator.Iterator) (f *tFile, n int, err error) {
 
 // Opens table. It returns a cache handle, which should
 // be released after use.
-func (t *tOps) open(f *tFile) (ch *cache.Handle, err error) {
+func (t *tOps) open(f *tFile) (ch *cache.Handle, tr *table.Reader, err error) {
 	ch = t.fileCache.Get(0, uint64(f.fd.Num), func() (size int, value cache.Value) {
 		var r storage.Reader
 		r, err = t.s.stor.Open(f.fd)
@@ -418,17 +418,26 @@ func (t *tOps) open(f *tFile) (ch *cache.Handle, err error) {
 			blockCache = &cache.NamespaceGetter{Cache: t.blockCache, NS: uint64(f.fd.Num)}
 		}
 
-		var tr *table.Reader
-		tr, err = table.NewReader(r, f.size, f.fd, blockCache, t.blockBuffer, t.s.o.Options)
+		var ntr *table.Reader
+		ntr, err = table.NewReader(r, f.size, f.fd, blockCache, t.blockBuffer, t.s.o.Options)
 		if err != nil {
 			_ = r.Close()
 			return 0, nil
 		}
-		return 1, tr
+		return 1, ntr
 
 	})
 	if ch == nil && err == nil {
 		err = ErrClosed
+	}
+	if ch != nil {
+		// The file cache is force closed when the DB closes, which clears
+		// the value under outstanding handles: read it once.
+		var ok bool
+		if tr, ok = ch.Value().(*table.Reader); !ok {
+			ch.Release()
+			return nil, nil, ErrClosed
+		}
 	}
 	return
 }
@@ -436,41 +445,41 @@ func (t *tOps) open(f *tFile) (ch *cache.Handle, err error) {
 // Finds key/value pair whose key is greater than or equal to the
 // given key.
 func (t *tOps) find(f *tFile, key []byte, ro *opt.ReadOptions) (rkey, rvalue []byte, err error) {
-	ch, err := t.open(f)
+	ch, tr, err := t.open(f)
 	if err != nil {
 		return nil, nil, err
 	}
 	defer ch.Release()
-	return ch.Value().(*table.Reader).Find(key, true, ro)
+	return tr.Find(key, true, ro)
 }
 
 // Finds key that is greater than or equal to the given key.
 func (t *tOps) findKey(f *tFile, key []byte, ro *opt.ReadOptions) (rkey []byte, err error) {
-	ch, err := t.open(f)
+	ch, tr, err := t.open(f)
 	if err != nil {
 		return nil, err
 	}
 	defer ch.Release()
-	return ch.Value().(*table.Reader).FindKey(key, true, ro)
+	return tr.FindKey(key, true, ro)
 }
 
 // Returns approximate offset of the given key.
 func (t *tOps) offsetOf(f *tFile, key []byte) (offset int64, err error) {
-	ch, err := t.open(f)
+	ch, tr, err := t.open(f)
 	if err != nil {
 		return
 	}
 	defer ch.Release()
-	return ch.Value().(*table.Reader).OffsetOf(key)
+	return tr.OffsetOf(key)
 }
 
 // Creates an iterator from the given table.
 func (t *tOps) newIterator(f *tFile, slice *util.Range, ro *opt.ReadOptions) iterator.Iterator {
-	ch, err := t.open(f)
+	ch, tr, err := t.open(f)
 	if err != nil {
 		return iterator.NewEmptyIterator(err)
 	}
-	iter := ch.Value().(*table.Reader).NewIterator(slice, ro)
+	iter := tr.NewIterator(slice, ro)
 	iter.SetReleaser(ch)
 	return iter
 }
